@@ -135,7 +135,10 @@ class C15(Prop):
         return fd({
             'funcs': st.lists(func, min_size=1, max_size=4),
             'tps': st.lists(tp, min_size=1, max_size=4),
-            'threads': st.lists(st.tuples(st.integers(0, 3), st.integers(0, 3)).map(list), min_size=1, max_size=3),
+            # (function, argument): the argument is the recursion depth of self-recursive functions - mostly shallow, now
+            # and then several hundred levels (as many pending openings on one thread)
+            'threads': st.lists(st.tuples(st.integers(0, 3), st.sampled_from([0, 1, 2, 3] * 16 + [270])).map(list),
+                                min_size=1, max_size=3),
             # how many span processors are installed: each opens (and must get closed) a span of its own per hit
             'span_procs': st.sampled_from([1, 1, 2, 3]),
         })
